@@ -70,6 +70,10 @@ CLAIMED["C13"] = ("property-based testing with fault injection (Hypothesis): gen
          "Exploration + fault enumeration: for every generated tree the id of the copy each import resolves to, the number of evaluations per canonical file, std.thisFile, importstr (lossy UTF-8) and importbin (bytes) content are compared with a 10-line resolution model; missing files, dangling links and cycles must exit 1 located at the import site.",
          "Trusts the resolution model in pbt/props/c13.py (importer's directory, then -J right-most first, absolute paths bypass) and os.path.realpath for canonical identity; runs as root, so unreadable-file faults are represented by missing files/dangling links/directories.",
          "DESIGN.md section 5 / C13")
+CLAIMED["C02"] = ("property-based testing (Hypothesis): type-directed generated core-language programs, differential against a lazy reference interpreter written from the Jsonnet specification",
+         "Exploration: closed terminating programs covering every core feature and their interactions (inheritance chains in every bracketing, self/super/$, +:, visibilities, object locals, asserts, comprehensions, default/named arguments, bounded recursion), printed with varied concrete syntax; the manifested value, or the explicit-error/assert message, must equal the reference interpreter's.",
+         "Trusts the reference interpreter pbt/ref/interp.py (independent of /repo, ~600 lines) and the printer; numbers reaching string coercions are small integers or k/8, shifts use literal operands, tailstrict/imports/std beyond a whitelist are excluded (documented restrictions).",
+         "DESIGN.md section 5 / C02")
 NOT_YET = {}
 
 def main():
